@@ -48,7 +48,8 @@ def truthful_reply(text: str, solver: str) -> tuple[str, str, int]:
                 p = _real_subprocess.run(cmd, capture_output=True, text=True, timeout=20)
                 r = (p.stdout, p.stderr, p.returncode)
             except _real_subprocess.TimeoutExpired:
-                r = ("unknown\n", "", 0)
+                # a wall-clock event: the run that meets it is reported as inconclusive, never judged
+                return ("unknown\n", "truthful solver exceeded the harness wall limit", -99)
         finally:
             shutil.rmtree(d, ignore_errors=True)
         if len(_truth_cache) > 2000:
@@ -74,6 +75,7 @@ class SolverStub:
         self.kinds = kinds or REPLY_KINDS[1:]
         self.latency = latency
         self.history: list[dict] = []
+        self.wall_timeouts = 0
 
     def factory(self, cmd):
         sim = self.sim
@@ -94,6 +96,8 @@ class SolverStub:
             so, se, rc = truthful_reply(text, self.solver)
             truth_first = so.split("\n", 1)[0].strip()
         info["truth"] = truth_first
+        if rc == -99:
+            self.wall_timeouts += 1
         info["truth_stdout"] = so
         kind = self.plan(info) if self.plan is not None else None
         if kind is None:
